@@ -116,7 +116,11 @@ func checkSidecarAgainstSource(sc *transfer.Sidecar, outFile string, tree vk.Tre
 		got := make([]byte, n)
 		rn, _ := f.ReadAt(got, off)
 		want := make([]byte, n)
-		vk.FillContent(tree.Seed, treeRel, off, want)
+		if en, ok := tree.EntryByRel(treeRel); ok {
+			tree.Fill(en, off, want)
+		} else {
+			vk.FillContent(tree.Seed, treeRel, off, want)
+		}
 		if counter != nil {
 			counter.Add(1)
 		}
